@@ -181,6 +181,23 @@ def gen_crun_large(rng, g, tier, unit=None):
     return f'c20.crun {off} {mn} {mx} {"nostamps" if rng.below(2) else "stamps"} ' + '/'.join(per)
 
 
+def gen_writes(rng, g):
+    """One region, written n times through stub.Write (both paths; reserve regions also across a page boundary)."""
+    path = rng.choice(['m', 'h'])
+    n = rng.choice([1, 16, 48, 48, 64, 4096, 5000]) if path == 'm' else rng.choice([1, 16, 48, 48, 64, 4096, 5000, 9000])
+    return f'c20.writes {path} {n} {1 + rng.below(6)}'
+
+
+def gen_cwrite(rng, g, tier):
+    """Concurrent writers on the reserve: regions dealt round-robin, so every code page is shared by several writers."""
+    W = rng.choice([2, 4, 8, 8, 16])
+    per = 1 + rng.below(4)
+    n = rng.choice([16, 48, 48, 64, 100])
+    rounds = (6000 if tier == 'quick' else 15000) // (per * max(W // 4, 1))
+    off = g['min'] + rng.below(g['max'] - g['min'] - W * per * n)
+    return f'c20.cwrite {off} {g["min"]} {g["max"]} {W} {per} {n} {max(rounds, 50)}'
+
+
 # ------------------------------------------------------------------ the property on the implementation's observations
 
 def oracle_info(g):
@@ -196,8 +213,8 @@ def oracle_info(g):
     return bad
 
 
-_H = re.compile(r'^H\+(-?\d+):(\d+)((?:![a-z-]+)*)$')
-_M = re.compile(r'^M:(\d+)((?:![a-z-]+)*)$')
+_H = re.compile(r'^H\+(-?\d+):(\d+)((?:![a-z0-9-]+)*)$')
+_M = re.compile(r'^M:(\d+)((?:![a-z0-9-]+)*)$')
 
 
 def oracle_seq(line, obs, g):
@@ -250,6 +267,36 @@ def oracle_seq(line, obs, g):
     for (a, ln, rq), (b, lb, rb) in zip(ne, ne[1:]):
         if a + ln > b:
             return f'regions H+{a}:{ln} ({rq}) and H+{b}:{lb} ({rb}) overlap', st
+    return None, st
+
+
+def oracle_writes(line, obs):
+    """Every one of the n writes through stub.Write must go through and read back."""
+    if obs is None:
+        return 'no observation (the probe process died while running this line)'
+    if obs.startswith('env-mismatch') or obs == 'bad-op':
+        return None
+    if not obs.startswith('ok'):
+        _, path, n, k = line.split()
+        what = {'fault': 'faulted', 'err': 'returned an error', 'readback': 'did not store the bytes'}.get(obs.split('@')[0], obs)
+        return (f'a {n}-byte region of the {"mmap" if path == "m" else "reserve"} path is not writable through stub.Write on write '
+                f'#{obs.split("@")[-1]} of {k}: the writer {what}')
+    return None
+
+
+def oracle_cwrite(line, obs):
+    """Writers that write only their own (disjoint) reserve regions must never fault, fail or lose their bytes."""
+    st = {'writes': 0, 'shared_pages': 0}
+    if obs is None:
+        return 'no observation (the probe process died while running this line)', st
+    if obs.startswith('env-mismatch') or obs == 'bad-op':
+        return None, st
+    kv = dict(x.split('=', 1) for x in obs.split())
+    st['writes'], st['shared_pages'] = int(kv['writes']), int(kv['shared_pages'])
+    if int(kv['faults']) or int(kv['errs']) or int(kv['mismatches']):
+        t = line.split()
+        return (f'{t[4]} concurrent writers, each writing only its own {t[6]}-byte reserve regions through stub.Write: faults={kv["faults"]} '
+                f'errors={kv["errs"]} lost-bytes={kv["mismatches"]} after {kv["writes"]} writes (first: {kv["first"]})'), st
     return None, st
 
 
@@ -371,6 +418,10 @@ def plan(tier, rng, g, widen, hist):
             lines.append(gen_seq_line(rng, g, False, hist))
         for _ in range(nsmall):
             lines.append(gen_crun_small(rng, g))
+        for _ in range(12 if tier == 'quick' else 60):
+            lines.append(gen_writes(rng, g))
+        for _ in range(4 if tier == 'quick' else 8):
+            lines.append(gen_cwrite(rng, g, tier))
         for k in range(nlarge):
             unit = (1, 1) if (tier == 'thorough' or widen) and k == 0 and p % 2 == 0 else None
             lines.append(gen_crun_large(rng, g, tier, unit))
@@ -390,6 +441,8 @@ def corpus_lines(g):
         f'c20.seq {mn} {mn} {mx} f{1 << 62} f{(1 << 62) - 1} h48 m1 m4096',
         f'c20.crun {mn} {mn} {mx} nostamps ' + '/'.join([','.join(['1'] * 300)] * 16),   # F12: 1-byte requests, 16 requesters
         f'c20.crun {mx - 100} {mn} {mx} stamps 48,48/48,48/48,48',
+        'c20.writes m 48 4', 'c20.writes h 48 4', 'c20.writes m 4097 2', 'c20.writes h 5000 3',   # seed c20-4: second write to a mapping
+        f'c20.cwrite {mn} {mn} {mx} 8 2 48 {3000 if True else 0}',                                   # seed c20-2: writers on shared pages
     ]
 
 
@@ -399,6 +452,10 @@ def quick_scan(lines, obs, g):
         if line.startswith('c20.seq') and oracle_seq(line, o, g)[0]:
             return True
         if line.startswith('c20.crun') and oracle_crun(line, o, g)[0]:
+            return True
+        if line.startswith('c20.writes') and oracle_writes(line, o):
+            return True
+        if line.startswith('c20.cwrite') and oracle_cwrite(line, o)[0]:
             return True
     return False
 
@@ -468,6 +525,19 @@ def run(tier):
                         distinct.add((rq, r))
             if why:
                 bad.append((line, why, obs))
+        elif line.startswith('c20.writes'):
+            stats['write_histories'] = stats.get('write_histories', 0) + 1
+            stats['writes_sequential'] = stats.get('writes_sequential', 0) + int(line.split()[3])
+            why = oracle_writes(line, obs)
+            if why:
+                bad.append((line, why, obs))
+        elif line.startswith('c20.cwrite'):
+            why, st = oracle_cwrite(line, obs)
+            stats['concurrent_writer_runs'] = stats.get('concurrent_writer_runs', 0) + 1
+            stats['concurrent_writes'] = stats.get('concurrent_writes', 0) + st['writes']
+            stats['concurrent_writer_shared_pages'] = stats.get('concurrent_writer_shared_pages', 0) + st['shared_pages']
+            if why:
+                bad.append((line, why, obs))
         elif line.startswith('c20.crun'):
             why, h, st = oracle_crun(line, obs, g)
             short = len(line.split()[5].split(',')) < 20
@@ -494,7 +564,7 @@ def run(tier):
                                                        'how': 'python3 check.py C20 --replay <this file>  (concurrent histories are re-run up to 30 times)'})
 
     # 2. correspondence: differential run of the sequential histories, trace validation of the concurrent ones
-    seq_idx = [i for i, l in enumerate(all_lines) if l.startswith('c20.seq') and all_obs[i] is not None and not all_obs[i].startswith('env-mismatch')]
+    seq_idx = [i for i, l in enumerate(all_lines) if l.startswith(('c20.seq', 'c20.writes')) and all_obs[i] is not None and not all_obs[i].startswith('env-mismatch')]
     mlines = [all_lines[i].replace('pristine:', '') for i in seq_idx]
     vlines, vsrc = [], []
     budget = {'short': 500 if tier == 'quick' else 12000, 'long': 26 if tier == 'quick' else 250, 'skipped': 0}
@@ -584,6 +654,24 @@ def replay(body):
                 rc_all = 1
             else:
                 print(f'{line[:200]}\n  {runs} runs: property holds on every observed history')
+        elif line.startswith('c20.writes'):
+            rc, obs, log = run_impl(binary, [line], 'c20-replay', timeout=300)
+            why = oracle_writes(line, obs[0])
+            model, _ = run_model([line], 'c20-replay')
+            print(f'{line}\n  impl : {obs[0]}\n  model: {model[0] if model else ""}\n  oracle: {why or "ok"}')
+            if why or (model and obs[0] and model[0] != obs[0]):
+                rc_all = 1
+        elif line.startswith('c20.cwrite'):
+            hit = None
+            for k in range(10):
+                rc, obs, log = run_impl(binary, [line], 'c20-replay', timeout=300)
+                why, st = oracle_cwrite(line, obs[0])
+                if why:
+                    hit = (k, why)
+                    break
+            print(f'{line}\n  ' + (f'run {hit[0] + 1}/10: {hit[1]}' if hit else '10 runs: no writer faulted, failed or lost bytes'))
+            if hit:
+                rc_all = 1
         elif line.startswith('c20.seq'):
             rc, obs, log = run_impl(binary, [line], 'c20-replay', timeout=300)
             why, st = oracle_seq(line, obs[0], g)
